@@ -720,6 +720,10 @@ def fixpoint_spec(chk, fx):
     cn = Canon(f)
     whiles = [n for n in (f.body.get("c") or []) if n.get("k") in ("WhileStmt", "DoStmt")]
     if len(whiles) != 2:
+        # another arrangement of the iteration (one merged sweep, three loops, ...): the reference below does not apply,
+        # but what makes any such loop a fixpoint iteration does: whenever a set of the analyser grows, the change flag
+        # is raised, otherwise the loop can stop before the growth has been propagated
+        _fixpoint_growth(chk, f, cn, whiles)
         chk.incomplete("analyze_nterm_sets: expected two fixpoint loops, found %d" % len(whiles))
     L = "gi.rule_infos[@i{0..rule_count}]"
     S = "gi.right_sides[%s.r_idx][@i{0..%s.r_elements}]" % (L, L)
@@ -809,6 +813,33 @@ def fixpoint_spec(chk, fx):
         c = cn.c(w["cond"])
         if not c.startswith("?"):
             chk.violation("FIXPOINT", A.site(f, w), "FIXPOINT:loop-condition", "fixpoint loop runs while %s" % c)
+
+
+def _fixpoint_growth(chk, f, cn, whiles):
+    from . import pathsig as PS
+    import re as _re
+    for w in whiles:
+        flag = cn.c(w["cond"])
+        if not flag.startswith("?"):
+            continue
+        actual, nodes = PS.event_conditions(cn, w["body"], unroll=1, drop=_drop_noise)
+        raised = actual.get(("assign", "(%s = true)" % flag))
+        if raised is None:
+            continue
+        atoms = PS.atoms_of(*actual.values())
+        for (k, t), d in sorted(actual.items()):
+            grows = (k == "call" and _re.match(r"[A-Za-z_]\w*(\[.*\])?\.(set|add)\(", t)) or \
+                    (k == "assign" and _re.match(r"\([A-Za-z_]\w*\[.*\] = ", t))
+            if not grows:
+                continue
+            open_ = [c for c in d if not PS._covers(c, raised, atoms)]
+            if open_:
+                chk.violation("FIXPOINT", A.site(f, nodes.get((k, t)) or w), "FIXPOINT:growth-without-change",
+                              "%s can happen on a path that does not raise the change flag %s (%s): the iteration can stop "
+                              "before this growth has reached the sets that depend on it" % (
+                                  _short(t), flag, PS.show({open_[0]})[:200]))
+            else:
+                chk.ok("FIXPOINT", A.site(f, nodes.get((k, t)) or w), "%s always raises %s" % (_short(t), flag))
 
 
 def _project(dnf, keep):
